@@ -55,9 +55,20 @@ struct Walker : dv::Typed<int, Walker> {
 			else if(s.op == "end") { it = e; }
 			else if(s.op == "begin") { it = b; }
 			idx_t pos = it - b;
-			CIt cit = it;  // const iterator to the same position
+			CIt cit = it;  // const iterator to the same position: equal, designates the same element, steps the same way
+			bool ce = (cit == it && !(cit != it));
+			if(pos >= 0 && pos < size) {
+				ce = ce && (static_cast<void const*>(deref(cit)) == static_cast<void const*>(deref(it)));
+				CIt c2 = cit; ++c2; --c2;
+				ce = ce && (c2 == cit) && (static_cast<void const*>(deref(c2)) == static_cast<void const*>(deref(it)));
+				if(pos + 1 < size) { CIt c3 = cit; ++c3; It m3 = it; ++m3; ce = ce && (static_cast<void const*>(deref(c3)) == static_cast<void const*>(deref(m3))); }
+				if(pos > 0) { CIt c4 = cit; --c4; It m4 = it; --m4; ce = ce && (static_cast<void const*>(deref(c4)) == static_cast<void const*>(deref(m4))); }
+			} else if(pos == size && size > 0) {
+				CIt c2 = cit; --c2; It m2 = it; --m2;
+				ce = ce && (static_cast<void const*>(deref(c2)) == static_cast<void const*>(deref(m2)));
+			}
 			std::cout << "I " << id << ' ' << n << " k=" << kind << " r=" << s.r << " pos=" << pos << " cmp=" << cmp3(it, regs)
-			          << " ce=" << ((cit == it && !(cit != it)) ? 1 : 0);
+			          << " ce=" << (ce ? 1 : 0);
 			if(pos >= 0 && pos < size) { std::cout << " d=" << (deref(it) - root); } else { std::cout << " d=-"; }
 			if(s.hask) { std::cout << " x=" << (indexed(it, s.k) - root); } else { std::cout << " x=-"; }
 			std::cout << '\n';
@@ -73,10 +84,10 @@ struct Walker : dv::Typed<int, Walker> {
 			std::cout << "F " << id << " k=a size=" << size << " dist=" << (w.end() - w.begin()) << '\n';
 			if constexpr(D == 1) {
 				auto f = w.dropped(size > 0 ? 1 : 0);
-				walk<It, CIt>(w.begin(), w.end(), size, [](It const& it) { return &*it; }, [](It const& it, idx_t k) { return &it[k]; }, f.begin());
+				walk<It, CIt>(w.begin(), w.end(), size, [](auto const& it) { return &*it; }, [](It const& it, idx_t k) { return &it[k]; }, f.begin());
 			} else {
 				auto f = w.rotated();  // same type, other extents
-				walk<It, CIt>(w.begin(), w.end(), size, [](It const& it) { return (*it).base(); }, [](It const& it, idx_t k) { return it[k].base(); }, f.begin());
+				walk<It, CIt>(w.begin(), w.end(), size, [](auto const& it) { return (*it).base(); }, [](It const& it, idx_t k) { return it[k].base(); }, f.begin());
 			}
 			// independent of iterators: the sub-view / element at the p-th valid index
 			auto const ext = w.extension();
@@ -98,13 +109,13 @@ struct Walker : dv::Typed<int, Walker> {
 			if constexpr(D == 1) {
 				auto f = w.dropped(w.size() > 0 ? 1 : 0);
 				auto&& fel = f.elements();
-				walk<It, CIt>(el.begin(), el.end(), size, [](It const& it) { return &*it; }, [](It const& it, idx_t k) { return &it[k]; }, fel.begin());
+				walk<It, CIt>(el.begin(), el.end(), size, [](auto const& it) { return &*it; }, [](It const& it, idx_t k) { return &it[k]; }, fel.begin());
 			} else {
 				auto f = w.rotated();
 				auto&& fel = f.elements();
 				It fi = fel.begin();
 				if(fel.size() > 1) { ++fi; }
-				walk<It, CIt>(el.begin(), el.end(), size, [](It const& it) { return &*it; }, [](It const& it, idx_t k) { return &it[k]; }, fi);
+				walk<It, CIt>(el.begin(), el.end(), size, [](auto const& it) { return &*it; }, [](It const& it, idx_t k) { return &it[k]; }, fi);
 			}
 			std::cout << "M " << id << " k=e";
 			for(idx_t p = 0; p != size && p < 64; ++p) { std::cout << ' ' << (&el[p] - root); }
